@@ -198,6 +198,31 @@ pub struct SimVM {
     pub primitives: FakePrimitives,
     pub panics_seen: Cell<u64>,
     pub max_depth: Cell<u32>,
+    /// optional observer of every top-level message (C11 caller-substitution probes)
+    pub probe: RefCell<Option<Rc<dyn ProbeHook>>>,
+    pub probing: Cell<bool>,
+}
+
+/// The message a probe hook is told about.
+pub struct ProbeMsg {
+    pub from: ActorID,
+    pub to: Address,
+    pub value: TokenAmount,
+    pub method: MethodNum,
+    pub params: Option<IpldBlock>,
+    /// a fault plan was active for this message
+    pub faulted: bool,
+}
+
+/// Called after every top-level message that was not itself issued by a hook. The hook may snapshot / restore /
+/// execute freely but must leave the VM in the state it found it in.
+pub trait ProbeHook {
+    fn on_message(&self, vm: &SimVM, pre: &Snapshot, msg: &ProbeMsg, res: &MsgResult);
+}
+
+thread_local! {
+    /// hook installed into every SimVM created on this thread
+    pub static PROBE: RefCell<Option<Rc<dyn ProbeHook>>> = const { RefCell::new(None) };
 }
 
 #[derive(Clone)]
@@ -272,6 +297,8 @@ impl SimVM {
             primitives: FakePrimitives::default(),
             panics_seen: Cell::new(0),
             max_depth: Cell::new(MAX_CALL_DEPTH),
+            probe: RefCell::new(PROBE.with(|p| p.borrow().clone())),
+            probing: Cell::new(false),
         }
     }
 
@@ -359,6 +386,30 @@ impl SimVM {
         method: MethodNum,
         params: Option<IpldBlock>,
     ) -> MsgResult {
+        let hook = if self.probing.get() { None } else { self.probe.borrow().clone() };
+        match hook {
+            None => self.execute_inner(from, to, value, method, params),
+            Some(h) => {
+                let pre = self.snapshot();
+                let faulted = !self.fault_plan.borrow().is_empty();
+                let msg = ProbeMsg { from, to: *to, value: value.clone(), method, params: params.clone(), faulted };
+                let res = self.execute_inner(from, to, value, method, params);
+                self.probing.set(true);
+                h.on_message(self, &pre, &msg, &res);
+                self.probing.set(false);
+                res
+            }
+        }
+    }
+
+    fn execute_inner(
+        &self,
+        from: ActorID,
+        to: &Address,
+        value: &TokenAmount,
+        method: MethodNum,
+        params: Option<IpldBlock>,
+    ) -> MsgResult {
         let mut sender = self.actor(from).expect("sender must exist");
         let call_seq = sender.sequence;
         sender.sequence += 1;
@@ -437,7 +488,9 @@ impl SimVM {
         params: Option<IpldBlock>,
     ) -> (u64, MsgResult) {
         let snap = self.snapshot();
+        let was = self.probing.replace(true);
         let r = self.execute(from, to, value, method, params);
+        self.probing.set(was);
         let n = self.send_counter.get();
         self.restore(&snap);
         (n, r)
